@@ -81,6 +81,55 @@ SubTerms(t) == {t} \cup UNION {SubTerms(t.a[i]) : i \in 1..Len(t.a)}
 RECURSIVE HasKind(_, _)
 HasKind(t, kinds) == t.k \in kinds \/ \E i \in 1..Len(t.a) : HasKind(t.a[i], kinds)
 
+(* The shape of a lambda's parameter list beyond plain parameters, carried in the lam term's s field:          *)
+(* "" = plain parameters only; otherwise "po<i>ko<j>va<0|1>kw<0|1>" = i positional-only parameters, j           *)
+(* keyword-only ones, a *args and a **kwargs parameter.  p lists ALL bound names in declaration order          *)
+(* (positional-only, ordinary, *args, keyword-only, **kwargs); n counts the defaults of the positional          *)
+(* parameters; a = <<body>> \o defaults \o one entry per keyword-only parameter (its default, or absent).       *)
+LamSig(s) ==
+    CASE s = "" -> [po |-> 0, ko |-> 0, va |-> FALSE, kw |-> FALSE]
+      [] s = "po0ko0va0kw1" -> [po |-> 0, ko |-> 0, va |-> FALSE, kw |-> TRUE]
+      [] s = "po0ko0va1kw0" -> [po |-> 0, ko |-> 0, va |-> TRUE, kw |-> FALSE]
+      [] s = "po0ko0va1kw1" -> [po |-> 0, ko |-> 0, va |-> TRUE, kw |-> TRUE]
+      [] s = "po0ko1va0kw0" -> [po |-> 0, ko |-> 1, va |-> FALSE, kw |-> FALSE]
+      [] s = "po0ko1va0kw1" -> [po |-> 0, ko |-> 1, va |-> FALSE, kw |-> TRUE]
+      [] s = "po0ko1va1kw0" -> [po |-> 0, ko |-> 1, va |-> TRUE, kw |-> FALSE]
+      [] s = "po0ko1va1kw1" -> [po |-> 0, ko |-> 1, va |-> TRUE, kw |-> TRUE]
+      [] s = "po0ko2va0kw0" -> [po |-> 0, ko |-> 2, va |-> FALSE, kw |-> FALSE]
+      [] s = "po0ko2va0kw1" -> [po |-> 0, ko |-> 2, va |-> FALSE, kw |-> TRUE]
+      [] s = "po0ko2va1kw0" -> [po |-> 0, ko |-> 2, va |-> TRUE, kw |-> FALSE]
+      [] s = "po0ko2va1kw1" -> [po |-> 0, ko |-> 2, va |-> TRUE, kw |-> TRUE]
+      [] s = "po1ko0va0kw0" -> [po |-> 1, ko |-> 0, va |-> FALSE, kw |-> FALSE]
+      [] s = "po1ko0va0kw1" -> [po |-> 1, ko |-> 0, va |-> FALSE, kw |-> TRUE]
+      [] s = "po1ko0va1kw0" -> [po |-> 1, ko |-> 0, va |-> TRUE, kw |-> FALSE]
+      [] s = "po1ko0va1kw1" -> [po |-> 1, ko |-> 0, va |-> TRUE, kw |-> TRUE]
+      [] s = "po1ko1va0kw0" -> [po |-> 1, ko |-> 1, va |-> FALSE, kw |-> FALSE]
+      [] s = "po1ko1va0kw1" -> [po |-> 1, ko |-> 1, va |-> FALSE, kw |-> TRUE]
+      [] s = "po1ko1va1kw0" -> [po |-> 1, ko |-> 1, va |-> TRUE, kw |-> FALSE]
+      [] s = "po1ko1va1kw1" -> [po |-> 1, ko |-> 1, va |-> TRUE, kw |-> TRUE]
+      [] s = "po1ko2va0kw0" -> [po |-> 1, ko |-> 2, va |-> FALSE, kw |-> FALSE]
+      [] s = "po1ko2va0kw1" -> [po |-> 1, ko |-> 2, va |-> FALSE, kw |-> TRUE]
+      [] s = "po1ko2va1kw0" -> [po |-> 1, ko |-> 2, va |-> TRUE, kw |-> FALSE]
+      [] s = "po1ko2va1kw1" -> [po |-> 1, ko |-> 2, va |-> TRUE, kw |-> TRUE]
+      [] s = "po2ko0va0kw0" -> [po |-> 2, ko |-> 0, va |-> FALSE, kw |-> FALSE]
+      [] s = "po2ko0va0kw1" -> [po |-> 2, ko |-> 0, va |-> FALSE, kw |-> TRUE]
+      [] s = "po2ko0va1kw0" -> [po |-> 2, ko |-> 0, va |-> TRUE, kw |-> FALSE]
+      [] s = "po2ko0va1kw1" -> [po |-> 2, ko |-> 0, va |-> TRUE, kw |-> TRUE]
+      [] s = "po2ko1va0kw0" -> [po |-> 2, ko |-> 1, va |-> FALSE, kw |-> FALSE]
+      [] s = "po2ko1va0kw1" -> [po |-> 2, ko |-> 1, va |-> FALSE, kw |-> TRUE]
+      [] s = "po2ko1va1kw0" -> [po |-> 2, ko |-> 1, va |-> TRUE, kw |-> FALSE]
+      [] s = "po2ko1va1kw1" -> [po |-> 2, ko |-> 1, va |-> TRUE, kw |-> TRUE]
+      [] s = "po2ko2va0kw0" -> [po |-> 2, ko |-> 2, va |-> FALSE, kw |-> FALSE]
+      [] s = "po2ko2va0kw1" -> [po |-> 2, ko |-> 2, va |-> FALSE, kw |-> TRUE]
+      [] s = "po2ko2va1kw0" -> [po |-> 2, ko |-> 2, va |-> TRUE, kw |-> FALSE]
+      [] s = "po2ko2va1kw1" -> [po |-> 2, ko |-> 2, va |-> TRUE, kw |-> TRUE]
+      [] OTHER -> [po |-> 0, ko |-> 0, va |-> FALSE, kw |-> FALSE]
+NKwOnly(lam) == LamSig(lam.s).ko
+(* number of parameters that can be bound by position *)
+NPositional(lam) == Len(lam.p) - LamSig(lam.s).ko - (IF LamSig(lam.s).va THEN 1 ELSE 0) - (IF LamSig(lam.s).kw THEN 1 ELSE 0)
+PlainLam(lam) == lam.s = ""
+LamG(sg, nd, ps, b, defs, kwdefs) == T("lam", sg, nd, ps, <<b>> \o defs \o kwdefs)
+
 ---------------------------------------------------------------------------
 (* Python scoping: lambda parameters and comprehension targets bind; lambda *)
 (* defaults and the comprehension's iterable are evaluated outside.         *)
@@ -115,7 +164,7 @@ WellFormed(t) ==
                              -> Len(t.a) = 0
          [] t.k = "attr"     -> Len(t.a) = 1
          [] t.k = "call"     -> Len(t.a) = 1 + t.n + Len(t.p)
-         [] t.k = "lam"      -> Len(t.a) = 1 + t.n /\ t.n <= Len(t.p)
+         [] t.k = "lam"      -> Len(t.a) = 1 + t.n + NKwOnly(t) /\ t.n <= NPositional(t)
          [] t.k = "binop"    -> Len(t.a) = 2
          [] t.k = "unop"     -> Len(t.a) = 1
          [] t.k = "boolop"   -> Len(t.a) >= 2
